@@ -49,9 +49,16 @@ Definition run_fe_auto (s : list Z) : string :=
   match detect s with FPcapng => "pcapng" | FHex => "hex" | FBinary => "binary" | FTooShort => "short" end%string.
 Definition run_fe_pcap (ps : list (list Z)) : string := show_hex_ (pcap_bytes ps).
 
+(** the lenient field-by-field reading (validity ignored), rendered as events + ACC *)
+Definition run_spec_lenient (T : tables) (r : root) (input : list Z) : string :=
+  match sp_root T r input with
+  | Some vs => show_result (stamp_items (Z.of_nat (List.length input)) (flat_map items_of vs) 0, OAccepted)
+  | None => "NOTWF"%string
+  end.
+
 Extraction "Extract/model.ml"
   tables_current tables_pinned prims_current prims_pinned
-  run_decode run_obj run_spec run_attr run_rc run_rc_spec run_fe_hex run_fe_swtpm run_fe_auto run_fe_pcap find_type
+  run_decode run_obj run_spec run_spec_lenient run_attr run_rc run_rc_spec run_fe_hex run_fe_swtpm run_fe_auto run_fe_pcap find_type
   prim_text prim_bytes valid representable pname pwidth psigned pkind_
   hex2 dec_string show_hex_
   RType RCommand RResponse RStream.
